@@ -47,6 +47,16 @@ def degenerate(points) -> bool:
     return len(mono_hull(points)) <= 2
 
 
+def outside_collinear(points) -> bool:
+    """three or more DISTINCT points that all lie on one straight line.  QUANTIFIER: "all non-empty collections of
+    coordinate objects whose points do not all lie on one straight line (plus the 1- and 2-point cases), with
+    duplicates and interior points": a derivation from such a collection is outside the property (one or two distinct
+    points, however often repeated, are the 1- and 2-point cases "with duplicates": inside).  Neither the oracle
+    (`_judge_hull`) nor the correspondence (`compare`) holds the code to anything on such a derivation: whether it
+    answers with the two ends of the segment, with every point along it, or not at all is stated nowhere."""
+    return points is not None and len(set(tuple(p) for p in points)) > 2 and degenerate(points)
+
+
 def is_cyclic_variant(a: List[tuple], b: List[tuple]) -> bool:
     """a is a rotation of b or of reversed b"""
     if len(a) != len(b):
@@ -392,6 +402,11 @@ class C09(Check):
         'coordinates point by point, outcomes as rejected-vs-accepted (no exception class is part of the '
         'statement); empty collections, documents / children without coordinates, non-child arguments of '
         'add_child and regions with own Coords are outside the quantifier (tagged, differences only recorded). '
+        'Wave 5: a DERIVATION from three or more distinct points on one straight line is outside the quantifier too '
+        '("whose points do not all lie on one straight line (plus the 1- and 2-point cases)"): its outcome, and the '
+        'coordinates / area an element carries until its next assignment or derivation, are neither judged nor '
+        'compared (per derivation: the other derivations and reads of the same case are); the area of collinear '
+        'POINTS (poly_area) is still compared and judged (0). '
         'USED OBJECTS (wave 4): every derivation is made on objects that are used again — inputs built in each input '
         'form (tuples, lists, points string), derived from twice and in reversed order, callers called twice on the '
         'same objects, attached children also added to a second container; the model being a pure function of the '
@@ -1041,8 +1056,15 @@ class C09(Check):
         # Level of comparison (see the comment block above `same_outline`): a DERIVED vertex list up to rotation
         # and reflection ("listed in boundary order": no start vertex, no direction is fixed), one-/two-vertex
         # results as sets, boxes and areas exactly, outcomes rejected-vs-accepted (no exception class is named).
+        # A derivation whose input is three or more distinct points on one line is outside the quantifier (see
+        # `outside_collinear`): its outcome, and whatever is computed FROM that outcome, is not compared.  Every other
+        # derivation of the same case is compared as before.
         if case.kind == 'derive':
             m = model_out[0]['ok']
+            if outside_collinear(flat(case.input['docs'])):
+                # (the area of the input points themselves is poly_area's business, not a derivation: still compared)
+                return None if norm_err(impl_out['area2_all']) == norm_err(m['area2_all']) else \
+                    f'area2_all: impl={short(impl_out["area2_all"])} model={short(m["area2_all"])}'
             if not same_coords_outcome(impl_out['coords'], m['coords']):
                 return f'coords: impl={short(impl_out["coords"])} model={short(m["coords"])}'
             for k in ('area2_all', 'area2_hull'):
@@ -1076,6 +1098,8 @@ class C09(Check):
                 f'impl={short(impl_out)} model={short(model_out[0])}'
         if case.kind == 'extremes':
             # the two ends of the segment, as a set (the oracle does not fix their order either); None = not on a line
+            if outside_collinear(case.input['points']):
+                return None      # what the helper of the derivation says about an excluded collection is not fixed
             return None if same_points_outcome(impl_out, model_out[0]) else \
                 f'impl={short(impl_out)} model={short(model_out[0])}'
         if case.kind == 'history':
@@ -1088,10 +1112,26 @@ class C09(Check):
                 return f'{len(io)} outputs, model {len(m["outs"])}'
             # coordinates that were ASSIGNED (constructor, `set`) are kept point by point: compared exactly;
             # coordinates DERIVED by a successful add_child: up to rotation / reflection
-            derived = False
+            # STATEMENT: "whenever an element's coordinates are derived from other elements (… adding a child), the
+            # result is the convex hull of all THEIR points": every add_child is a derivation of its own, from the
+            # children attached at that moment (the element's previous coordinates are no input of it).  One whose
+            # children's points are three or more distinct points on one line is outside the quantifier: its outcome
+            # is not compared, and the element's coordinates / area are `free` (not compared) until they are set, or
+            # derived again from a collection inside the quantifier.  A history whose later states are inside is
+            # compared on those states as before.
+            nslots = REGION_SLOTS if case.input['elem'] == 'region' else PAGE_SLOTS
+            kids = [list(k) for k in case.input['kids']]
+            derived = free = False
             for i, (op, a, b) in enumerate(zip(ops_m, io, m['outs'])):
                 if op[0] == 'set':
-                    derived = False
+                    derived = free = False
+                if op[0] == 'add' and op[1] < nslots:
+                    kids.append([op[1], op[2]])
+                    if outside_collinear(ordered_points(nslots, kids)):
+                        free = True
+                        continue
+                if free and op[0] in ('coords', 'area'):
+                    continue
                 if 'coords' in a and 'coords' in b:
                     same = same_outline(a['coords'], b['coords']) if derived else a['coords'] == b['coords']
                 else:
@@ -1099,9 +1139,9 @@ class C09(Check):
                 if not same:
                     return f'op {i} {op}: impl={short(a)} model={short(b)}'
                 if op[0] == 'add' and 'unit' in a:
-                    derived = True
+                    derived, free = True, False
             fi, fm = impl_out['ok']['coords'], m['coords']
-            if not (same_outline(fi, fm) if derived else fi == fm):
+            if not free and not (same_outline(fi, fm) if derived else fi == fm):
                 return f'final coords: impl={fi} model={fm}'
             return None
         if case.kind == 'region':
@@ -1109,6 +1149,8 @@ class C09(Check):
             i = {'ok': impl_out['ok']['points'] if impl_out['ok'] is not None else None} if 'ok' in impl_out \
                 else impl_out
             own = case.input['own'] is not None      # own Coords are kept as given: exact
+            if not own and outside_collinear(flat(case.input['regions']) + flat(case.input['lines'])):
+                return None
             if not ((norm_err(i) == norm_err(m)) if own else same_points_outcome(i, m)):
                 return f'impl={short(i)} model={short(m)}'
             if len(model_out) > 1:
@@ -1138,11 +1180,15 @@ class C09(Check):
                     for k in ri:
                         if cells_key(ri[k]['docs']) != cells_key(rm[k]['docs']):
                             return f'row {k}: cells impl={short(ri[k]["docs"])} model={short(rm[k]["docs"])}'
+                        if outside_collinear(flat(ri[k]['docs'])):
+                            continue
                         if not same_coords_outcome({'ok': ri[k]['coords']}, {'ok': rm[k]['coords']}):
                             return f'row {k}: coords impl={short(ri[k]["coords"])} model={short(rm[k]["coords"])}'
             if 'err' in impl_out:
                 return None if not model_out else f'impl={impl_out} model={short(model_out)}'
             for item, m in zip(impl_out['ok'], model_out):
+                if outside_collinear(flat(item['docs'])):
+                    continue
                 if not same_coords_outcome({'ok': item['coords']}, m['ok']['coords']):
                     return f'impl={short(item["coords"])} model={short(m["ok"]["coords"])}'
                 if m['ok']['planar'] and m['ok']['cert'] is not True:
@@ -1153,6 +1199,8 @@ class C09(Check):
                 if 'ok' not in again or len(again['ok']) != len(impl_out['ok']):
                     return f'second call on the same objects: {short(again)} after {short(impl_out["ok"])}'
                 for item, m in zip(again['ok'], model_out):
+                    if outside_collinear(flat(item['docs'])):
+                        continue
                     if not same_coords_outcome({'ok': item['coords']}, m['ok']['coords']):
                         return f'second call on the same objects: impl={short(item["coords"])} model={short(m["ok"]["coords"])}'
             return None
@@ -1179,8 +1227,8 @@ class C09(Check):
             # three or more DISTINCT points on one straight line are outside the quantifier ("collections ... whose
             # points do not all lie on one straight line (plus the 1- and 2-point cases), with duplicates"): whether
             # the answer lists the two ends only or every point along the segment is not stated, so it is not judged
-            # (false alarm of probe 2, behaviour_preserving/C09-collinear-keeps-points-bp; DESIGN §12.9).  The model
-            # still mirrors what the code does there, so a change shows as a broken correspondence.
+            # (false alarm of probe 2, behaviour_preserving/C09-collinear-keeps-points-bp; DESIGN §12.9).  The
+            # correspondence does not compare such a derivation either (`outside_collinear`, `compare`).
             if len(set(tuple(p) for p in pts)) > 2:
                 return
             # at most two distinct points, repeated (a zero-height line box; fix fc690f6): the hull is the segment
